@@ -37,8 +37,12 @@ theorem splitName_two (p c : Str) (h : p.getLast? ≠ some '\\') :
   have := splitName_joinName_aux [p, c] (by simp) (by intro n hn; simp [List.dropLast] at hn; subst hn; exact h)
   simpa [joinName, joinChar] using this
 
+/-- table obligation: `:` is not a channel prefix (a `:network` name is never taken for a channel) -/
+theorem chantypes_no_colon : Gen.Registry.chanTypes.contains ':' = false := by decide
+
 theorem isChannel_colon (n : Str) : isChannel (':' :: n) = false := by
   unfold isChannel
+  simp only [chantypes_no_colon]
   simp
 
 /-! ### one step of the start-up loop -/
